@@ -161,7 +161,7 @@ impl<'a> Machine<'a> {
                 self.last_out = out;
                 return vec![];
             }
-            let res = self.eval(i, &node.op, ins, inputs, &out);
+            let res = self.eval(i, &node.op, ins, inputs, &mut out);
             for port in &res {
                 if port.len() > MAX_LEN {
                     self.bad("stream too long");
@@ -267,7 +267,7 @@ impl<'a> Machine<'a> {
         }
     }
 
-    fn eval(&mut self, i: usize, op: &Op, mut ins: Vec<Vec<Val>>, inputs: &[Vec<Val>], out: &Streams) -> Vec<Vec<Val>> {
+    fn eval(&mut self, i: usize, op: &Op, mut ins: Vec<Vec<Val>>, inputs: &[Vec<Val>], out: &mut Streams) -> Vec<Vec<Val>> {
         let one = |v: Vec<Val>| vec![v];
         match op {
             // "emits each of the elements it receives downstream"
@@ -325,20 +325,33 @@ impl<'a> Machine<'a> {
                 v.sort_by_key(|x| key_fn(k, x));
                 one(v)
             }
-            Op::RefMap { target, f } => {
-                // the referenced value is the complete output of its producers for this tick
-                let tnode = &self.prog.nodes[*target];
-                let e = tnode.ins[0];
-                let buf = &out[e.node][e.port];
-                let v = ins[0]
-                    .iter()
-                    .map(|x| match f {
+            Op::RefMap { target, f, .. } => {
+            // The referenced value is the complete output of the target's producers for this tick
+            // (the target node was evaluated earlier); holders run in access-group order = index
+            // order (checked by the analysis), each for all its items; writers update the value in
+            // place, so later holders and the pipe consumer of the target see the update.
+                let mut v = vec![];
+                for x in &ins[0] {
+                    let buf = &mut out[*target][0];
+                    v.push(match f {
                         RefFn::PairWith => Val::T(vec![x.clone(), buf[0].clone()]),
                         RefFn::Add => Val::I(x.int() + buf[0].int()),
                         RefFn::Len => Val::T(vec![x.clone(), Val::I(buf.len() as i64)]),
                         RefFn::SumBuf => Val::T(vec![x.clone(), Val::I(buf.iter().map(|b| b.int()).sum())]),
-                    })
-                    .collect();
+                        RefFn::MulAdd(a) => {
+                            buf[0] = Val::I((buf[0].int() * a + x.int()) % M);
+                            x.clone()
+                        }
+                        RefFn::Push => {
+                            buf.push(x.clone());
+                            x.clone()
+                        }
+                        RefFn::Retain => {
+                            buf.retain(|y| y != x);
+                            x.clone()
+                        }
+                    });
+                }
                 one(v)
             }
             // "delivers a copy of each item to each output"
@@ -868,6 +881,7 @@ fn norm_leaves(x: &Val) -> Vec<i64> {
 pub fn pred(f: &Pred, x: &Val) -> bool {
     match f {
         Pred::Even => x.int() % 2 == 0,
+        Pred::Odd => x.int() % 2 != 0,
         Pred::Lt(c) => x.int() < *c,
         Pred::Ne(c) => x.int() != *c,
         Pred::KeyEven => x.kv().0.int() % 2 == 0,
@@ -1067,4 +1081,18 @@ pub fn run_script(prog: &Prog, script: &Script) -> Expected {
     }
     ex.invalid = m.invalid.clone();
     ex
+}
+
+/// Streams of every node in every tick of a `run_tick`-only script (for non-triviality rules and
+/// the reducer).
+pub fn trace(prog: &Prog, script: &Script) -> Vec<Vec<Vec<Vec<Val>>>> {
+    let mut m = Machine::new(prog);
+    let mut t = vec![];
+    for st in &script.steps {
+        let mut inputs = st.send.clone();
+        inputs.resize(prog.sources.len(), vec![]);
+        m.run_tick(&inputs);
+        t.push(m.last_out.clone());
+    }
+    t
 }
